@@ -32,6 +32,16 @@ func (m *verifMutex) Lock() {
 	m.mu.Unlock()
 }
 
+func (m *verifMutex) TryLock() bool {
+	m.mu.Lock()
+	defer m.mu.Unlock()
+	if m.held {
+		return false
+	}
+	m.held = true
+	return true
+}
+
 func (m *verifMutex) Unlock() {
 	m.mu.Lock()
 	m.held = false
@@ -55,4 +65,76 @@ func callerIn(substr string) bool {
 			return false
 		}
 	}
+}
+
+// verifRWMutex: the readers-writer counterpart (no writer preference; the server's own big lock
+// is not one of these - it is the scheduler-owned lock).
+type verifRWMutex struct {
+	mu      sync.Mutex
+	c       *sync.Cond
+	writer  bool
+	readers int
+}
+
+func (m *verifRWMutex) cond() *sync.Cond {
+	if m.c == nil {
+		m.c = sync.NewCond(&m.mu)
+	}
+	return m.c
+}
+
+func (m *verifRWMutex) Lock() {
+	m.mu.Lock()
+	c := m.cond()
+	for m.writer || m.readers > 0 {
+		c.Wait()
+	}
+	m.writer = true
+	m.mu.Unlock()
+}
+
+func (m *verifRWMutex) Unlock() {
+	m.mu.Lock()
+	m.writer = false
+	m.cond().Broadcast()
+	m.mu.Unlock()
+}
+
+func (m *verifRWMutex) RLock() {
+	m.mu.Lock()
+	c := m.cond()
+	for m.writer {
+		c.Wait()
+	}
+	m.readers++
+	m.mu.Unlock()
+}
+
+func (m *verifRWMutex) RUnlock() {
+	m.mu.Lock()
+	m.readers--
+	if m.readers == 0 {
+		m.cond().Broadcast()
+	}
+	m.mu.Unlock()
+}
+
+func (m *verifRWMutex) TryLock() bool {
+	m.mu.Lock()
+	defer m.mu.Unlock()
+	if m.writer || m.readers > 0 {
+		return false
+	}
+	m.writer = true
+	return true
+}
+
+func (m *verifRWMutex) TryRLock() bool {
+	m.mu.Lock()
+	defer m.mu.Unlock()
+	if m.writer {
+		return false
+	}
+	m.readers++
+	return true
 }
